@@ -44,28 +44,29 @@ func manifestSyms(s string) string {
 // along executable edges without executing any of the `via` instructions?
 func mustPass(fn *ssa.Function, inj map[ssa.Value]AV, via []ssa.Instruction) (bool, string) {
 	s := RunSCCP(fn, inj)
-	block := map[int]bool{}
+	block := map[*VNode]bool{}
 	for _, v := range via {
-		block[v.Block().Index] = true
+		if n := s.vf.nodeOf[v]; n != nil {
+			block[n] = true
+		}
 	}
-	seen := map[int]bool{}
-	q := []int{0}
+	seen := map[*VNode]bool{}
+	q := []*VNode{s.entryNode()}
 	for len(q) > 0 {
 		cur := q[0]
 		q = q[1:]
-		if seen[cur] || block[cur] {
+		if cur == nil || seen[cur] || block[cur] {
 			continue
 		}
 		seen[cur] = true
-		b := fn.Blocks[cur]
-		if len(b.Instrs) > 0 {
-			if _, ok := b.Instrs[len(b.Instrs)-1].(*ssa.Return); ok && b != fn.Recover {
-				return false, fmt.Sprintf("block b%d returns without passing through it", cur)
+		if len(cur.Instrs) > 0 && cur.Fn == fn {
+			if _, ok := cur.Instrs[len(cur.Instrs)-1].(*ssa.Return); ok && cur.Block != fn.Recover {
+				return false, fmt.Sprintf("node n%d returns without passing through it", cur.Idx)
 			}
 		}
-		for _, su := range b.Succs {
-			if s.edge[[2]int{cur, su.Index}] {
-				q = append(q, su.Index)
+		for _, su := range cur.Succs {
+			if s.edge[[2]int{cur.Idx, su.Idx}] {
+				q = append(q, su)
 			}
 		}
 	}
